@@ -12,6 +12,7 @@ import Y0.Driver.Ctf
 import Y0.Driver.Transport
 import Y0.Driver.Print
 import Y0.Driver.Tian
+import Y0.Driver.Sem
 
 open Y0 Y0.Driver
 
@@ -30,6 +31,7 @@ def dispatch (line : String) : String :=
       | "transport" => handleTransport op args
       | "print" => handlePrint op args
       | "tian" => handleTian op args
+      | "sem" => handleSem op args
       | _ => none
     match r with
     | some s => toString s
